@@ -122,6 +122,11 @@ mut('m15x_register_clone_and_swap', ['C15'], SR, '''    let mut registry = STATS
     registry.insert(name.to_string(), stats);''', '''    let mut updated = STATS_REGISTRY.read().clone();
     updated.insert(name.to_string(), stats);
     *STATS_REGISTRY.write() = updated;''', 'two caches registering at the same time: one registration is lost')
+mut('m15c_revert_paren_fix', ['C09'], MS, '''            let mut ty: &syn::Type = ty;
+            while let syn::Type::Paren(p) = ty {
+                ty = &p.elem;
+            }
+            quote! { #ty }''', '''            quote! { #ty }''', 'revert of fix D8 (sync macro)')
 mut('m09c_vec_buffer_elem_size', ['C05'], ME, 'let buffer = self.capacity() * size_of::<T>();', 'let buffer = self.capacity() * size_of::<usize>();', 'buffer counted in words, not in elements')
 mut('m09d_option_double_counts_inline', ['C05'], ME, '.map_or(0, |val| val.estimate_memory() - size_of_val(val))', '.map_or(0, |val| val.estimate_memory())', 'payload inline size counted twice')
 mut('m09e_result_err_arm', ['C05'], ME, 'Err(err) => err.estimate_memory() - size_of_val(err),', 'Err(_) => 0,', 'heap owned by the Err payload ignored')
